@@ -213,6 +213,7 @@ def _run_part(prop, part, tier, seed, w, nworkers, stats, known):
     total = part.examples.get(tier, 0)
     if strat is None or not total:
         return
+    total = max(1, int(total * float(os.environ.get('ZTV_SCALE', '1'))))
     n = max(1, (total + nworkers - 1) // nworkers)
     import hypothesis
     from hypothesis import HealthCheck, Phase, given, settings
